@@ -176,7 +176,8 @@ def exec_spec_loop(ex, s, env, seq, spec, ordinal):
             from .state import comp_eq, ident
             if ident(a, b):
                 continue
-            ex.oblige("loop%d.frame.%s" % (ordinal, name), comp_eq(name, a, b), con.tags, s.lineno, "frame")
+            from .symex import frame_tags
+            ex.oblige("loop%d.frame.%s" % (ordinal, name), comp_eq(name, a, b), frame_tags(name, con.tags), s.lineno, "frame")
         raise LoopEnd()
     for nm, t, uses in inv_terms(n):
         ex.assume(t)
